@@ -7350,7 +7350,17 @@ func (bexp *ExistsBoolExp) requiresType(t SQLValueType, cols map[string]ColDescr
 }
 
 func (bexp *ExistsBoolExp) substitute(params map[string]interface{}) (ValueExp, error) {
-	return bexp, nil
+	// as for InSubQueryExp: reduce() resolves the subquery with nil params,
+	// so the parameters of the outer statement must be bound here
+	sel, ok := bexp.q.(*SelectStmt)
+	if !ok {
+		return bexp, nil
+	}
+	newQ, err := substituteSelectStmtParams(sel, params)
+	if err != nil {
+		return nil, err
+	}
+	return &ExistsBoolExp{q: newQ}, nil
 }
 
 func (bexp *ExistsBoolExp) reduce(tx *SQLTx, row *Row, implicitTable string) (TypedValue, error) {
